@@ -11,7 +11,7 @@ mutual
 `bound`) is in scope for it -/
 def occE (y : Name) (bound : List Name) : Expr → Prop
   | .lit _ | .enumVal _ _ => False
-  | .var x => x = y ∧ y ∉ bound
+  | .var x | .dimVar x => x = y ∧ y ∉ bound
   | .un _ a => occE y bound a
   | .bin _ a b | .and a b | .or a b | .assign a b | .while a b | .doWhile a b => occE y bound a ∨ occE y bound b
   | .cond c t e => occE y bound c ∨ occE y bound t ∨ occE y bound e
@@ -88,6 +88,27 @@ theorem mem_fvE (y : Name) (bound acc : List Name) : ∀ e : Expr,
   | .lit _ => by simp [fvE, occE]
   | .enumVal _ _ => by simp [fvE, occE]
   | .var x => by
+    simp only [fvE, occE]
+    split
+    · rename_i hx
+      constructor
+      · intro h; exact Or.inl h
+      · intro h
+        cases h with
+        | inl h => exact h
+        | inr h => obtain ⟨h1, h2⟩ := h; subst h1; exact absurd hx h2
+    · rename_i hx
+      rw [mem_addFv]
+      constructor
+      · intro h
+        cases h with
+        | inl h => exact Or.inl h
+        | inr h => subst h; exact Or.inr ⟨rfl, hx⟩
+      · intro h
+        cases h with
+        | inl h => exact Or.inl h
+        | inr h => exact Or.inr h.1
+  | .dimVar x => by
     simp only [fvE, occE]
     split
     · rename_i hx
@@ -185,6 +206,11 @@ theorem nodup_fvE (bound acc : List Name) (h : acc.Nodup) : ∀ e : Expr, (fvE b
   | .lit _ => by simpa [fvE] using h
   | .enumVal _ _ => by simpa [fvE] using h
   | .var x => by
+    simp only [fvE]
+    split
+    · exact h
+    · exact nodup_addFv x acc h
+  | .dimVar x => by
     simp only [fvE]
     split
     · exact h
